@@ -57,6 +57,12 @@ def stepStation (m : Option StModel) (line : String) : Option StModel × String 
       match w with
       | ["st.online"] => (some { m with s := m.s.setOnline }, "ok")
       | ["st.offline"] => (some { m with s := m.s.setOffline }, "ok")
+      | ["st.napps", k] =>
+        -- the application list may be changed while the station is offline
+        if m.s.online then (some m, "bad-op") else
+        (match k.toNat? with
+         | some k => (some { m with apps := (m.apps.take k) ++ List.replicate (k - m.apps.length) [] }, "ok")
+         | none => (some m, "bad-op"))
       | "st.script" :: app :: answers =>
         match app.toNat? with
         | some i =>
